@@ -1,9 +1,15 @@
 package schedh
 
 import (
+	"context"
 	"fmt"
+	datatransfer "github.com/filecoin-project/go-data-transfer/v2"
 	"os"
+	"sync"
 	"testing"
+	"verif/doubles"
+	"verif/l2transport"
+	"verif/sched"
 
 	"verif/mc"
 )
@@ -25,5 +31,88 @@ func TestDeterminism(t *testing.T) {
 				fmt.Println("DIVERGED", ops, rep, tr)
 			}
 		}
+	}
+}
+
+// TestFindBlockedHook (debug aid): free-running triples; prints the triples after which a goroutine stays
+// blocked inside the library.
+func TestFindBlockedHook(t *testing.T) {
+	if os.Getenv("VERIF_DEBUG") == "" {
+		t.Skip()
+	}
+	found := map[string]int{}
+	n := len(conOps)
+	for round := 0; round < 3000; round++ {
+		for a := 0; a < n-1; a++ {
+			for b := a; b < n-1; b++ {
+				for c := b; c < n-1; c++ {
+					key := conOps[a].name + "+" + conOps[b].name + "+" + conOps[c].name
+					if key != "restart+restart+peer-cancels" && key != "restart+block-received+request-completes" && key != "restart+peer-accepts+request-completes" && key != "restart+restart+request-completes" {
+						continue
+					}
+					mc.Bubble(t, func() {
+						w := l2transport.NewRealWorld()
+						chid, err := w.Mgr.OpenPullDataChannel(context.Background(), doubles.PeerB, doubles.Voucher("T", "v"), doubles.Cid("root"), doubles.AllSelector())
+						if err != nil {
+							panic(err)
+						}
+						mc.Wait()
+						reqNum := w.GS.Reqs[len(w.GS.Reqs)-1].Num
+						w.Mgr.SubscribeToEvents(func(e datatransfer.Event, st datatransfer.ChannelState) { _ = st.Status() })
+						var wg sync.WaitGroup
+						for _, o := range []int{a, b, c} {
+							o := o
+							wg.Add(1)
+							go func() {
+								defer wg.Done()
+								defer func() { _ = recover() }()
+								conOps[o].do(w, chid, reqNum)
+							}()
+						}
+						wg.Wait()
+						mc.Wait()
+						w.Close()
+						mc.Wait()
+						if sites := mc.BlockedSites(); len(sites) > 0 {
+							if found[key] == 0 {
+								fmt.Println("BLOCKED", key, sites)
+								fmt.Println(mc.BlockedStacks(4))
+								for _, c := range w.GS.CallsFrom(0) {
+									fmt.Printf("  gs %d %s req=%d %v\n", c.Seq, c.Op, c.Req, c.Err)
+								}
+							}
+							found[key]++
+							mc.Unblock()
+							t.Fatalf("blocked: %v", found)
+						}
+					})
+				}
+			}
+		}
+	}
+	fmt.Println("found:", found)
+}
+
+// TestEnumTriple (debug aid): scheduler enumeration of one triple with a large cap.
+func TestEnumTriple(t *testing.T) {
+	if os.Getenv("VERIF_DEBUG") == "" {
+		t.Skip()
+	}
+	x := mc.NewCellForDebug(t)
+	idx := func(name string) int {
+		for i, o := range conOps {
+			if o.name == name {
+				return i
+			}
+		}
+		panic(name)
+	}
+	ops := []int{idx("restart"), idx("restart"), idx("peer-cancels")}
+	name := "dbg-triple"
+	x.Enumerate(name, mc.EnumOpts{MaxDeviations: 2, DeviationCost: sched.Cost, MaxExecutions: 300000}, c20Body(x, ops, name, "restart+restart+peer-cancels+"))
+	fmt.Println("executions", x.Executions, "violations", len(x.Violations))
+	for _, v := range x.Violations {
+		fmt.Println(v.Signature)
+		fmt.Println(v.Message)
 	}
 }
